@@ -175,6 +175,19 @@ Theorem C04_partition_file :
 Proof. exact add_ranges_spec. Qed.
 Print Assumptions C04_partition_file.
 
+(* and conversely: a file whose ranges lie inside the alignment, address only free sites and are pairwise
+   disjoint is accepted - together with C04_partition_file, acceptance of a file on a fresh partition set is
+   EXACTLY "in bounds and pairwise disjoint" *)
+Theorem C04_partition_file_accepted :
+  forall l ps,
+  ps_wf ps ->
+  (forall x, In x l -> let '(s, e, m) := snd x in 0 <= s /\ e < ps_len ps /\ 0 < m) ->
+  (forall x j, In x l -> 0 <= j -> addressed_by x j -> nth (Z.to_nat j) (ps_parts ps) (-1) = -1) ->
+  ForallOrdPairs (fun x y => forall j, 0 <= j -> ~ (addressed_by x j /\ addressed_by y j)) l ->
+  snd (add_ranges ps l) = true.
+Proof. exact add_ranges_complete. Qed.
+Print Assumptions C04_partition_file_accepted.
+
 (* the oracle of the correspondence (Corr/C04.v `covers`, the documented meaning of start-end\modulo) is the
    `addressed` of the theorems above *)
 Theorem C04_oracle_covers_is_addressed :
